@@ -40,10 +40,13 @@ REPS = {
 }
 DEFECTS = ["none", "bad-keyword", "bad-digit", "bad-dot", "bad-space", "nonascii", "dup-name", "taken-builtin",
            "taken-builtin-prim", "prim-name-in-module", "dup-rust-type", "use-empty", "use-missing", "use-missing-mid", "child-order",
-           "split", "readd", "macro"]
+           "split", "readd", "macro", "usetree", "dup-first"]
 DEFECTS_THOROUGH = ["bad-empty", "bad-boollit", "bad-hyphen"]
 KINDS = ["mod", "type", "fn", "const", "impl", "use"]
 WHYS = ["badname", "taken", "duptype", "unregistered"]
+
+
+USE_TREE_LEAVES = 3     # bound of the use-tree grammar (Mode "usetree"); the compiled table must be regenerated if changed
 
 
 def mc_cfg(path, n, nd, mode, light):
@@ -53,13 +56,35 @@ CONSTANTS
   BuiltinRoot = {%s}
   BuiltinAlias = {"Some", "None", "Ok", "Err"}
   ValidCls = {"ascii", "nonascii"}
+  UB = %d
   N = %d
   ND = %d
   Mode = "%s"
   Light = %s
 INVARIANTS Inv NoPanic Emit
 CHECK_DEADLOCK FALSE
-""" % (", ".join('"%s"' % b for b in BUILTIN_ROOT), n, nd, mode, "TRUE" if light else "FALSE"))
+""" % (", ".join('"%s"' % b for b in BUILTIN_ROOT), USE_TREE_LEAVES if mode == "usetree" else 1, n, nd, mode,
+       "TRUE" if light else "FALSE"))
+
+
+def render_use_tree(tr):
+    """use tree record of the spec -> Rust source of the tree (what follows `use `)"""
+    if tr["t"] == "name":
+        return tr["x"]
+    if tr["t"] == "path":
+        return tr["x"] + "::" + render_use_tree(tr["kids"][0])
+    return "{" + ", ".join(render_use_tree(k) for k in tr["kids"]) + "}"
+
+
+def table_use_trees():
+    """the use trees compiled into the harness (harness/src/tables/c18_usetrees.rs)"""
+    import re
+    p = os.path.join(vlib.VERIF, "harness", "src", "tables", "c18_usetrees.rs")
+    if not os.path.exists(p):
+        return set()
+    txt = open(p).read()
+    txt = txt[txt.index("USE_TREES"):txt.index("];")]
+    return set(re.findall(r'^    "([^"]*)",$', txt, re.M))
 
 
 # ----------------------------------------------------------------- representation mapping
@@ -101,10 +126,14 @@ def concretize(case, idx):
         a["nprobes"] = len(a["probes"])
         for n in a["dangling"]:
             a["probes"].append({"kind": "fn", "path": [n], "ps": [], "r": 0, "ty": 0, "tag": -3, "via": "dangling", "neg": True})
-        if a.get("macro"):
-            a["macro_lib"] = a["lib"]
+        if a.get("macro") == "usetree":
+            # the library! invocation with this `use` tree is compiled into the harness (tables/c18_usetrees.rs)
+            a["tree"] = render_use_tree(a["tree"][0])
+        elif a.get("macro"):
+            a.pop("tree", None)
         else:
             a.pop("macro", None)
+            a.pop("tree", None)
     return c
 
 
@@ -126,10 +155,11 @@ def abstract_names(events):
 def generate_cases(tier, ev):
     d = vlib.workdir(PID, "cfg")
     if tier == "quick":
-        plan = [("single", 3, 3, True), ("split", 3, 0, True), ("readd", 2, 2, True), ("macro", 1, 0, True)]
+        plan = [("single", 3, 3, True), ("split", 3, 0, True), ("readd", 2, 2, True), ("macro", 1, 0, True),
+                ("dup1", 1, 0, True), ("dup2", 1, 0, True), ("usetree", 1, 0, True)]
     else:
         plan = [("single", 3, 3, False), ("single", 4, 2, True), ("split", 4, 0, True), ("readd", 3, 3, True),
-                ("macro", 1, 0, True)]
+                ("macro", 1, 0, True), ("dup1", 1, 0, True), ("dup2", 1, 0, True), ("usetree", 1, 0, True)]
     cases = []
     parts = []
     for (mode, n, nd, light) in plan:
@@ -144,7 +174,7 @@ def generate_cases(tier, ev):
     seen = set()
     uniq = []
     for c in cases:
-        k = vlib.shash([[(a["lib"], a["defect"], a["macro"]) for a in c["adds"]]])
+        k = vlib.shash([[(a["lib"], a["defect"], a["macro"], a["tree"]) for a in c["adds"]]])
         if k not in seen:
             seen.add(k)
             uniq.append(c)
@@ -168,6 +198,57 @@ def vacuity(cases, tier, ev):
             walk(a["lib"])
             for p in a["probes"]:
                 probes["%s/%s" % (p["kind"], p["via"])] += 1
+    # duplicate registrations: every cell of kind x ident x place1 x place2 x (one library, reversed, two adds)
+    dupcells = [d for d in defects if d.startswith("dup/")]
+    if len(dupcells) != 5 * 2 * 3 * 5 * 3:
+        raise vlib.ToolError("duplicate-registration matrix incomplete: %d cells of 450" % len(dupcells))
+    dupout = Counter()
+    for c in cases:
+        a = c["adds"][-1]
+        if a["defect"].startswith("dup/"):
+            f = a["defect"].split("/")
+            scope = "same-scope" if f[3] == f[4] else "other-scope"
+            dupout["%s/%s/%s/%s:%s" % (f[1], f[2], scope, "two-adds" if f[5] == "two-adds" else "one-lib", a["out"])] += 1
+    for must in ("type-same/same/other-scope/one-lib:Err", "type-same/same/other-scope/two-adds:Err",
+                 "type-same/diff/other-scope/one-lib:Err", "type-other/same/other-scope/one-lib:Ok",
+                 "type-other/same/same-scope/one-lib:Err", "fn/same/other-scope/one-lib:Ok", "fn/same/same-scope/one-lib:Err",
+                 "const/same/other-scope/two-adds:Ok", "method/same/other-scope/one-lib:Err", "method/diff/other-scope/two-adds:Ok"):
+        if dupout[must] == 0:
+            raise vlib.ToolError("duplicate-registration family missing: %s (have %s)" % (must, dict(dupout)))
+    ev.extra["duplicate_registration_matrix"] = dict(dupout)
+    # use trees of library!: shapes
+    shapes = Counter()
+    for c in cases:
+        a = c["adds"][0]
+        if a["macro"] == "usetree":
+            t = a["tree"][0]["kids"][0]          # below `a::`
+            if t["t"] != "group":
+                shapes["plain-path" if "{" not in render_use_tree(t) else "path-then-group"] += 1
+            else:
+                multi = [k["t"] == "path" for k in t["kids"]]
+                nested = any("{" in render_use_tree(k) for k in t["kids"])
+                if not any(multi):
+                    shapes["flat-group"] += 1
+                else:
+                    if multi[0] and len(multi) > 1:
+                        shapes["multi-segment-entry-first"] += 1
+                    if multi[-1] and len(multi) > 1:
+                        shapes["multi-segment-entry-last"] += 1
+                    if len(multi) == 3 and multi[1]:
+                        shapes["multi-segment-entry-middle"] += 1
+                if nested:
+                    shapes["nested-group"] += 1
+    for must in ("plain-path", "path-then-group", "flat-group", "multi-segment-entry-first", "multi-segment-entry-middle",
+                 "multi-segment-entry-last", "nested-group"):
+        if shapes[must] == 0:
+            raise vlib.ToolError("use-tree shape missing from the generated cases: %s" % must)
+    ev.extra["use_tree_shapes"] = dict(shapes)
+    have = table_use_trees()
+    stale = [render_use_tree(c["adds"][0]["tree"][0]) for c in cases if c["adds"][0]["macro"] == "usetree"
+             and render_use_tree(c["adds"][0]["tree"][0]) not in have]
+    if stale:
+        raise vlib.ToolError("harness/src/tables/c18_usetrees.rs lacks %d use trees of the spec (e.g. `%s`): "
+                             "run tools/gen_c18_usetrees.py" % (len(stale), stale[0]))
     need = DEFECTS + (DEFECTS_THOROUGH if tier != "quick" else [])
     missing = [x for x in need if defects[x] == 0] + [x for x in KINDS if kinds[x] == 0] + \
               [x for x in WHYS if whys[x] == 0] + [x for x in ("Ok", "Err", "Unspec") if outs[x] == 0] + \
@@ -219,6 +300,13 @@ def padded(add):
     return walk(add["lib"])
 
 
+def libtxt(a):
+    t = json.dumps(a["lib"], ensure_ascii=False)
+    if a.get("macro") == "usetree":
+        return "library! { use %s; } over the module world " % a["tree"] + t
+    return t
+
+
 def compare(case, res, verd):
     """Compare one replayed case with the specification's expectations. Returns True if it conforms."""
     oc = vlib.outcome_of(res)
@@ -230,23 +318,25 @@ def compare(case, res, verd):
     ok = True
     for k, (a, got) in enumerate(zip(case["adds"], res["r"]["adds"])):
         what = {"defect": a["defect"], "specified": a["out"], "add": str(k)}
+        if a.get("macro") == "usetree":
+            what["use_tree"] = a["tree"]
         if got["out"] == "panic":
             verd.report(dict(what, kind_of_failure="panic", stage=got.get("stage", "?"), loc=got.get("loc", "?")),
                         "Runtime::add / item constructor panicked (%s at %s) for a library with defect=%s: %s" %
-                        (got.get("msg"), got.get("loc"), a["defect"], json.dumps(a["lib"], ensure_ascii=False)[:400]),
+                        (got.get("msg"), got.get("loc"), a["defect"], libtxt(a)[:400]),
                         {"case": case, "add": k, "got": got})
             return False
         if a["out"] == "Err" and got["out"] == "ok":
             sig = dict(what, kind_of_failure="accepted", why=",".join(a["why"]), item=injected(a).split(":")[0],
                        name_form="padded-with-whitespace" if padded(a) else "other", injected=injected(a))
             verd.report(sig, "Registration must fail (%s; defect=%s %s) but Runtime::add returned Ok: %s" %
-                        (",".join(a["why"]), a["defect"], injected(a), json.dumps(a["lib"], ensure_ascii=False)[:500]),
+                        (",".join(a["why"]), a["defect"], injected(a), libtxt(a)[:500]),
                         {"case": case, "add": k, "got": got})
             return False
         if a["out"] == "Ok" and got["out"] == "err":
             verd.report(dict(what, kind_of_failure="rejected", stage=got.get("stage", "?")),
                         "Registration must succeed (defect=%s) but failed at %s with: %s; library %s" %
-                        (a["defect"], got.get("stage"), got.get("msg"), json.dumps(a["lib"], ensure_ascii=False)[:500]),
+                        (a["defect"], got.get("stage"), got.get("msg"), libtxt(a)[:500]),
                         {"case": case, "add": k, "got": got})
             return False
         if got["out"] != "ok":
@@ -259,7 +349,7 @@ def compare(case, res, verd):
             if pr["st"] == "panic":
                 verd.report(dict(where, kind_of_failure="probe-panic", loc=pr.get("loc", "?")),
                             "compiling / running a script that uses %s panicked: %s at %s; library %s" %
-                            (desc, pr.get("msg"), pr.get("loc"), json.dumps(a["lib"], ensure_ascii=False)[:400]),
+                            (desc, pr.get("msg"), pr.get("loc"), libtxt(a)[:400]),
                             {"case": case, "add": k, "probe": p, "got": pr})
                 ok = False
                 continue
@@ -271,13 +361,13 @@ def compare(case, res, verd):
                                 "%s must not be usable (%s) but the script compiled "
                                 "and returned tag %s; library %s" % (desc, "signature %s -> %s is not the declared one" % (p["ps"], p["r"]) if p["via"] == "sig"
                                                                      else "nothing is declared or imported there", pr.get("tag"),
-                                                                     json.dumps(a["lib"], ensure_ascii=False)[:400]),
+                                                                     libtxt(a)[:400]),
                                 {"case": case, "add": k, "probe": p, "got": pr})
                     ok = False
             elif pr["st"] != "ok" or pr["tag"] != p["tag"]:
                 verd.report(dict(where, kind_of_failure="unreachable" if pr["st"] != "ok" else "wrong-item"),
                             "%s must be usable and return tag %d; observed %s; library %s" %
-                            (desc, p["tag"], json.dumps(pr, ensure_ascii=False)[:300], json.dumps(a["lib"], ensure_ascii=False)[:400]),
+                            (desc, p["tag"], json.dumps(pr, ensure_ascii=False)[:300], libtxt(a)[:400]),
                             {"case": case, "add": k, "probe": p, "got": pr})
                 ok = False
     return ok
